@@ -33,7 +33,7 @@ def safe_names(rng, n, ext, hostile=0.35):
 
 
 class Driver:
-    def __init__(self, world, rng, weights=None, max_cols=5, pool=10, uids=6, ascii_names=False, audit_every=5, hostile=0.35, kinds=("calendar", "addressbook", "plain")):
+    def __init__(self, world, rng, weights=None, max_cols=5, pool=10, uids=7, ascii_names=False, audit_every=5, hostile=0.35, kinds=("calendar", "addressbook", "plain")):
         self.w = world
         self.rng = rng
         self.weights = dict(DEFAULT_WEIGHTS)
